@@ -103,4 +103,46 @@ theorem skel_Lock_Release_ok : skel_Lock_Release = ([
   "return sessions.ErrNotLocked",
   "return err"] : List String) := rfl
 
+theorem providerRefresh_ok : providerRefresh = ([
+  "## providers/adfs.go ADFSProvider.RefreshSession",
+  "if err != nil || s.Email != \"\"",
+  "return refreshed, err",
+  "return refreshed, err",
+  "## providers/azure.go AzureProvider.RefreshSession",
+  "if s == nil || s.RefreshToken == \"\"",
+  "return false, nil",
+  "p.redeemRefreshToken",
+  "if err != nil",
+  "return false, fmt.Errorf(\"unable to redeem refresh token: %v\", err)",
+  "fmt.Errorf",
+  "return true, nil",
+  "## providers/gitlab.go GitLabProvider.RefreshSession",
+  "if refreshed && err == nil",
+  "return refreshed, err",
+  "## providers/google.go GoogleProvider.RefreshSession",
+  "if s == nil || s.RefreshToken == \"\"",
+  "return false, nil",
+  "p.redeemRefreshToken",
+  "if err != nil",
+  "return false, err",
+  "if !p.groupValidator(s)",
+  "return false, fmt.Errorf(\"%s is no longer in the group(s)\", s.Email)",
+  "fmt.Errorf",
+  "return true, nil",
+  "## providers/keycloak_oidc.go KeycloakOIDCProvider.RefreshSession",
+  "if err != nil || !refreshed",
+  "return refreshed, err",
+  "return true, p.extractRoles(ctx, s)",
+  "p.extractRoles",
+  "## providers/oidc.go OIDCProvider.RefreshSession",
+  "if s == nil || s.RefreshToken == \"\"",
+  "return false, nil",
+  "p.redeemRefreshToken",
+  "if err != nil",
+  "return false, fmt.Errorf(\"unable to redeem refresh token: %v\", err)",
+  "fmt.Errorf",
+  "return true, nil",
+  "## providers/provider_default.go ProviderData.RefreshSession",
+  "return false, ErrNotImplemented"] : List String) := rfl
+
 end O2P.Expect.C12
